@@ -26,8 +26,9 @@ func verifHarness_C01_ExclusiveHolding() {
 	r := vsNewRig(1)
 	p := vsPlatform("os", "linux")
 	rt.Assert(r.bq.RegisterPredeclaredPlatformQueue(digest.EmptyInstanceName, p, nil, 0, 0, []uint32{0}) == nil, "queue registered")
-	r.addClient("", r.addAction(1, p, false), 0, "inv-a")
-	r.addClient("", r.addAction(2, p, false), 0, "inv-b")
+	// nested invocations below one common parent
+	r.addClient("", r.addAction(1, p, false), 0, "top", "a")
+	r.addClient("", r.addAction(2, p, false), 0, "top", "b")
 	r.addWorker("", p, 0, "w0")
 	r.addWorker("", p, 0, "w1")
 	o := &vsOpts{
@@ -38,6 +39,34 @@ func verifHarness_C01_ExclusiveHolding() {
 		maxSyncs:    4,
 		advances:    []time.Duration{vsWorkerTimeout + time.Second},
 		maxAdvances: 1,
+	}
+	r.drive(o, steps)
+}
+
+// Same on a worker-created queue whose workers may vanish and come back and
+// which may itself be removed after its timeout.
+func verifHarness_C01_ExclusiveHoldingDynamicQueue() {
+	rt.PreemptionBound(0)
+	steps := 5
+	if rt.Tier() > 0 {
+		steps = 7
+	}
+	rt.Bound("steps", steps)
+	rt.MustCover("sync:new-task", "sync:idle", "act:advance", "final:unavailable")
+	r := vsNewRig(1)
+	p := vsPlatform("os", "linux")
+	r.addClient("", r.addAction(1, p, false), 0, "top", "a")
+	r.addWorker("", p, 0, "w0")
+	r.sync(r.workers[0], vsSyncIdlePreferIdle)
+	rt.Quiesce()
+	r.walk()
+	o := &vsOpts{
+		maxExecs:    2,
+		idleKinds:   []int{vsSyncIdle},
+		syncKinds:   []int{vsSyncExecuting, vsSyncCompletedOK, vsSyncIdle},
+		maxSyncs:    5,
+		advances:    []time.Duration{vsWorkerTimeout + time.Second, vsQueueTimeout - 2*vsWorkerTimeout},
+		maxAdvances: 3,
 	}
 	r.drive(o, steps)
 }
